@@ -202,11 +202,21 @@ pub fn abstract_tok(to: &str, server_name: &str, tok: &Tok) -> Vec<Value> {
             v
         }
         "329" => vec![m(rest.iter().take(1).cloned().collect())],
-        "333" => vec![m(rest.iter().take(2).cloned().collect())],
+        "333" => {
+            // client channel nick setat  (nick is empty for a configured topic)
+            let ch = rest.get(0).cloned().unwrap_or_default();
+            let nick = if rest.len() >= 3 { rest[1].clone() } else { String::new() };
+            vec![m(vec![ch, nick])]
+        }
         "317" => vec![m(rest.iter().take(1).cloned().collect())],
-        "367" => vec![m(rest.iter().take(3).cloned().collect())],
+        "367" => {
+            // client channel mask who set_ts  (who is empty for a configured ban)
+            let ch = rest.get(0).cloned().unwrap_or_default();
+            let mask = rest.get(1).cloned().unwrap_or_default();
+            let who = if rest.len() >= 4 { rest[2].clone() } else { String::new() };
+            vec![m(vec![ch, mask, who])]
+        }
         "312" => vec![m(rest.iter().take(2).cloned().collect())],
-        "212" => vec![m(rest.iter().take(1).cloned().collect())],
         "311" | "314" => {
             // client nick ~user host * :realname
             let nick = rest.get(0).cloned().unwrap_or_default();
@@ -224,7 +234,9 @@ pub fn abstract_tok(to: &str, server_name: &str, tok: &Tok) -> Vec<Value> {
             let real = last.split_once(' ').map(|x| x.1.to_string()).unwrap_or_default();
             vec![m(vec![ch, user, host, nick, flags, real])]
         }
-        "704" | "705" | "706" => vec![m(rest.iter().take(1).cloned().collect())],
+        // help text lines and per-command statistics are not modelled
+        "705" | "212" => vec![],
+        "704" | "706" => vec![m(rest.iter().take(1).cloned().collect())],
         "472" => vec![m(rest.iter().take(1).cloned().collect())],
         "400" => vec![m(rest.iter().take(1).cloned().collect())],
         _ => {
